@@ -49,10 +49,39 @@ META = {
             "initial heap (a consequence of GoodI) and the law ExtAllocOnly on the unmodelled operations (generic "
             "builtins, eval's compiler, VPUSH change (capacity, used) only through Heap::alloc and keep HInv) - "
             "satisfiable by failingExt and by allocExt whose builtins do allocate (allocExt_allocOnly); non-vacuity: a "
-            "CONS step on a 4-cell heap allocating 2 <= 3 cells (hCons_inv, kernel-evaluated), a HALT slice. What is still "
-            "NOT a theorem: that a slice of the REAL run loop is at most 8192 instructions (run.rs cycle counter; tied by "
-            "the policy-trace stream), E for concrete builtins (each builtin's allocation is proportional to its "
-            "arguments: oracle (b)), and the bound on L; "
+            "CONS step on a 4-cell heap allocating 2 <= 3 cells (hCons_inv, kernel-evaluated), a HALT slice. "
+            "SESSION LEVEL (Lemmas/PolicySession*.lean, closed theorems about the modelled machine): cgc_is_gcPoint - a "
+            "collection `cgc force s` of the concrete machine acts on (chunk, capacity, used) as the policy's gcPoint "
+            "force live with live = liveCount s = the number of cells reachable from the machine roots rootsOf s "
+            "through semantic references (from runGc_refines_policy + T12.1 machine level + used_after_gc = live count), "
+            "keeps the allocator invariant and is one HRun step (HRun.collected / HRun.skipped), under GcOk s = GoodI s, "
+            "CodePlain s.heap, Small of the returned heap; runLoop_blocks_generic - for EVERY machine, from the definition "
+            "of runLoop alone (the cycles % 8192 test, the budget stop), an execution with any budget and fuel is a "
+            "sequence of closed blocks of <= 8192 instructions each followed by gc, then an open block of < 8192; "
+            "runLoop_is_paced / runEval_is_paced (both epilogues end in a collection that closes the last block) / "
+            "runHistory_is_session - the same for the concrete machine, for one evaluation and for a whole history of "
+            "evaluations (C07's runHistory), as a `Sess` whose records are (instructions, E, state the collection saw), E "
+            "= sum of `extra` over the block; session_is_heap_run - a session is ONE HRun of the heap model with "
+            "operations blocksOps [(j_i, force, liveCount cp_i)], j_i <= 3 n_i + E_i; session_capacity_bounded_machine - "
+            "for every session (closed blocks then an open one, i.e. at every moment) with <= 8192 instructions per block, "
+            "<= E cells allocated per block by the unmodelled operations and <= L cells reachable from the roots at every "
+            "collection point: capacity <= bound chunk initial (8192*3+E) L <= max(initial, 6(L + 8192*3 + E) + chunk), "
+            "independent of the number of instructions, evaluations and collections - C12's first sentence for the "
+            "modelled machine, with L and E as the program-dependent parameters. Its hypotheses: ExtAllocOnly, HInv of "
+            "the initial heap, the initial state right after a collection point, and GcOk at every collection point. "
+            "GcOk is discharged (eval_collection_points_ok, runHistory_session_ok, history_capacity_bounded_machine) from "
+            "the bundled invariant VmOkP = VmOk & PInv (an invariant of the real machine, vmOkP_reaches) and CodePlain of "
+            "the state each evaluation starts in, the laws ExtLaws / ExtGood / ExtProc / ExtCodePlain, and the physical "
+            "size bound EvalSizeBounded (SizeBounded plus the two epilogue collections); the wiped stack of the "
+            "epilogues keeps GoodI (onDone_goodI, onError_goodI). For a history, `JobsOk` asks VmOkP and the size bound "
+            "of the state each job starts in after prepare (that prepare_eval re-establishes VmOkP is not proved: the "
+            "compiler is unmodelled, and runHistory's `prepare` takes the entry lambda as given, so the cells the "
+            "compiler allocates are not part of a runHistory session; the general theorem admits them as `Seg.other` "
+            "steps counted in E). Non-vacuity: the HALT demo program evaluated twice satisfies every hypothesis "
+            "(demo_jobsOk, sHalt_evalSizeBounded; kernel-evaluated). What is still NOT a theorem: that the Lean runLoop "
+            "IS run.rs's loop (cycle counter, budget stop, epilogue collections: tied by the policy-trace stream, which "
+            "replays every real run_gc call, and by C13's lock-step stream), E for concrete builtins (each builtin's "
+            "allocation is proportional to its arguments: oracle (b)), and the bound on L for concrete programs; "
             "(ii) [upgraded to theorems about the concrete machine of Vm/ConcreteHeap.lean: "
             "no_floating_garbage_of_goodI / no_floating_garbage_machine / forced_gc_no_floating_garbage_machine - "
             "started in a state satisfying the invariant GoodI, in EVERY reachable state (any number of instructions, "
@@ -99,7 +128,11 @@ THEOREMS = ["Marwood.Proofs.C12." + t for t in [
     "no_floating_garbage_of_goodI", "no_floating_garbage_machine", "forced_gc_no_floating_garbage_machine",
     "sHalt_codePlain", "failingExt_codePlain",
     "instr_alloc_bound", "instr_alloc_bound_core", "opAlloc_table", "vararg_alloc_bound", "slice_alloc_bound",
-    "machine_slice_capacity_bounded", "session_capacity_bounded", "failingExt_allocOnly", "allocExt_allocOnly", "hCons_inv"]]
+    "machine_slice_capacity_bounded", "session_capacity_bounded", "failingExt_allocOnly", "allocExt_allocOnly", "hCons_inv",
+    "cgc_is_gcPoint", "liveCount_le_capacity", "runLoop_blocks_generic", "runLoop_is_paced", "runEval_is_paced",
+    "runHistory_is_session", "session_is_heap_run", "session_capacity_bounded_machine", "codePlain_runEval",
+    "eval_collection_points_ok", "runHistory_session_ok", "history_capacity_bounded_machine",
+    "hHalt_cgc", "sHalt_evalSizeBounded", "demo_eval", "demo_jobsOk"]]
 
 CHEAP = ["pairs", "vectors", "strings", "symbols", "bignums", "sliced"]
 MEDIUM = ["closures", "continuations", "contchain"]
@@ -143,7 +176,9 @@ def run(ctx):
         trusted_extra=["first sentence of C12 for concrete programs: L bounded by live data is carried by the '#oracle "
                        "capacity/live/held-bytes' exploration, not by a closed theorem; A per slice of <= 8192 instructions "
                        "is a theorem about the machine model (slice_alloc_bound: <= 8192*3 + cells allocated by the "
-                       "builtins called) under the law ExtAllocOnly on the unmodelled operations"])
+                       "builtins called) under the law ExtAllocOnly on the unmodelled operations; the session theorem "
+                       "session_capacity_bounded_machine takes L (cells reachable at collection points) and E (cells "
+                       "allocated per block by unmodelled operations) as parameters"])
 
 
 # ROUND 8: the Ext laws are theorems for a table of real builtins (lib/props/procinv_util.py, Lemmas/ListExtC12.lean)
